@@ -228,3 +228,12 @@ def run(cx):
                     ob.fail("refuted", f"per-request-close/{p}/{c.fn.split('::')[-1]}", f"{p} calls {c.fn}: one (abandoned or malformed) RPC would take down every other RPC on the connection", p, b.loc(c.bb))
         if not bad:
             ob.matched += 1
+
+    with cx.ob("C12.7", "R-CALLERS", "nothing between the stream and the handler detaches work: no spawn anywhere on the request path including the typed-RPC layer (closed world of task creation, C08.7 re-evaluated)") as ob:
+        from . import c08
+        sub = cx.__class__("C12", prog, cx.tier, cx.config, cx.tree, repo=cx.repo)
+        c08.run(sub)
+        w = [x for x in sub.obs if x.oid in ['C08.7']]
+        ob.count(sum(x.evals for x in w))
+        bad = [v for x in w for v in x.violations]
+        ob.require(len(w) == 1 and not bad, "detached-handler/no-spawn-on-request-path", "a task is spawned outside the sets that cancellation / shutdown reach (dropping the request future no longer drops the handler): " + "; ".join(str(v.msg) for v in bad)[:300], "anemo::rpc::server::Rpc::unary")
